@@ -14,6 +14,7 @@ from __future__ import annotations
 import ast
 
 from .. import sqlmini
+from ..flow import call_args  # noqa: I001
 from ..flow import call_name, calls_in, cfg_node_of, func_cfg, names_in, parent_map
 from ..loader import AnalysisError, walk_no_nested
 from ..report import Context
@@ -120,7 +121,7 @@ def run(ctx: Context) -> None:
     if len(lookups) != 1:
         ctx.fail("R1", f"{f.qualname}::one-lookup", f.loc(), f"{len(lookups)} lookups")
     else:
-        kw = {k.arg: k.value for k in lookups[0].keywords}
+        kw = call_args(lookups[0], ["task", "key_serialized_arguments", "statuses"])
         ok = "statuses" in kw and ast.unparse(kw["statuses"]) == "[InvocationStatus.REGISTERED]"
         ctx.add("R1", f"{f.qualname}::lookup-status-filter-is-REGISTERED", ok, f.loc(lookups[0]), "" if ok else f"statuses={ast.unparse(kw.get('statuses')) if kw.get('statuses') is not None else None}")
         ka = kw.get("key_serialized_arguments")
